@@ -1,4 +1,4 @@
-import PwVerif.Lemmas.PoolT
+import PwVerif.Lemmas.PoolQ
 /-!
 # C07 — Pool.run yields exactly one result per input under every schedule and death
 
@@ -146,6 +146,35 @@ theorem C07_terminates (c : Cfg) (hc : Plain c) (pick : List Nat → Option Nat)
   intro i
   have := (step_measure hc hp (runEvents c pick s0 ((List.range i).map evs)) (evs i)).2 (h i)
   simpa [List.range_succ, runEvents_snoc] using this
+
+/-- **C07 never blocks for ever.** In every reachable state in which the event loop is waiting (something is
+    pending and a worker is usable) progress is possible without anybody dying: some live worker holds an input
+    it has not answered yet, or some registered result queue holds a message or has reached EOF - so the next
+    `mp.connection.wait` returns. Together with `C07_terminates`: every fair schedule ends, by a normal return
+    or by `PoolError` (`C07_never_internal`). -/
+theorem C07_no_deadlock (c : Cfg) (hc : Plain c) (pick : List Nat → Option Nat) (hp : PickOK pick) (ht : PickTotal pick)
+    (n : Nat) (src : List Inp) (pre evs : List Ev)
+    (hrun : outcome (runEvents c pick (start c pick n src pre) evs) = .waiting) :
+    ∃ w, effective (runEvents c pick (start c pick n src pre) evs) (.work w) = true ∨
+         effective (runEvents c pick (start c pick n src pre) evs) (.poll [w]) = true := by
+  have hinv := inv_runEvents hc hp evs _ (inv_start hc hp n src pre)
+  have hq : QInv (runEvents c pick (start c pick n src pre) evs) :=
+    qinv_runEvents hc (pick := pick) evs _ (qinv_start hc (pick := pick) n src pre)
+  have h1 := C07_no_internal_error c hc pick hp n src pre evs
+  have h2 := C07_redispatch_terminates c hc pick hp ht n src pre evs
+  generalize runEvents c pick (start c pick n src pre) evs = s at hrun hinv hq h1 h2
+  have herr : s.err = none := by
+    cases he : s.err with
+    | none => rfl
+    | some e => cases e <;> simp_all
+  have hr : running s = true := by
+    unfold outcome at hrun
+    rw [herr] at hrun
+    simp only at hrun
+    split at hrun
+    · assumption
+    · split at hrun <;> cases hrun
+  exact progress_possible hinv hq hr herr
 
 /-- non-vacuity: in the start state of a run the first worker answering is an effective event -/
 example : effective (start {} pickFirst 2 [1, 2, 3]) (.work 0) = true := by decide +kernel
